@@ -56,8 +56,12 @@ class Cond:
             return '.modeIn ' + lean_list(sorted(a[0]))
         if k in ('lastEq', 'lastNe', 'flagOn', 'flagOff', 'opaque'):
             return f'.{k} {lean_str(a[0])}'
-        if k in ('caught', 'notCaught', 'restAlpha', 'restNotAlpha'):
+        if k in ('notCaught', 'restAlpha', 'restNotAlpha'):
             return f'.{k} {a[0]}'
+        if k == 'caught':
+            return f'.caught {a[0]} ' + lean_list(list(a[1]))
+        if k in ('lastIn', 'lastNotIn'):
+            return f'.{k} ' + lean_list([lean_str(x) for x in a[0]])
         raise ValueError(k)
 
     def neg(self):
@@ -66,8 +70,10 @@ class Cond:
             return Cond(k, NEG[a[0]], a[1])
         if k == 'mode':
             return Cond('mode', {'.quiet', '.verbose', '.debug'} - set(a[0]))
-        sw = {'lastEq': 'lastNe', 'lastNe': 'lastEq', 'flagOn': 'flagOff', 'flagOff': 'flagOn', 'caught': 'notCaught',
-              'notCaught': 'caught', 'restAlpha': 'restNotAlpha', 'restNotAlpha': 'restAlpha'}
+        sw = {'lastEq': 'lastNe', 'lastNe': 'lastEq', 'flagOn': 'flagOff', 'flagOff': 'flagOn',
+              'restAlpha': 'restNotAlpha', 'restNotAlpha': 'restAlpha', 'lastIn': 'lastNotIn', 'lastNotIn': 'lastIn'}
+        if k in ('caught', 'notCaught'):
+            return Cond('opaque', 'not:try-state')
         if k in sw:
             return Cond(sw[k], *a)
         t = a[0]
@@ -208,6 +214,10 @@ class Scanner:
                     return Cond(which, op, r.value)
             if isinstance(l, ast.Name) and l.id == 'lastcard' and isinstance(r, ast.Constant) and op in ('Eq', 'Ne'):
                 return Cond('last' + op, r.value)
+        if isinstance(t, ast.Compare) and len(t.ops) == 1 and isinstance(t.ops[0], (ast.In, ast.NotIn)) and isinstance(t.left, ast.Name) \
+                and t.left.id == 'lastcard' and isinstance(t.comparators[0], (ast.Tuple, ast.List)) \
+                and all(isinstance(e, ast.Constant) for e in t.comparators[0].elts):
+            return Cond('lastIn' if isinstance(t.ops[0], ast.In) else 'lastNotIn', [e.value for e in t.comparators[0].elts])
         # ''.join(spline[a:]).isalpha()
         if isinstance(t, ast.Call) and isinstance(t.func, ast.Attribute) and t.func.attr == 'isalpha' and isinstance(t.func.value, ast.Call) \
                 and isinstance(t.func.value.func, ast.Attribute) and t.func.value.func.attr == 'join' and t.func.value.args:
@@ -485,20 +495,22 @@ class Scanner:
             elif isinstance(st, ast.Try):
                 self.ntry += 1
                 k = self.ntry
-                classes = []
-                for h in st.handlers:
+                def hclasses(h):
                     t = h.type
-                    names = [t] if not isinstance(t, ast.Tuple) else list(t.elts)
                     if t is None:
-                        classes += list(PLAIN_ERRS) + ['ParseError', 'Other']
+                        return sorted('.' + c for c in list(PLAIN_ERRS) + ['ParseError', 'Other'])
+                    names = [t] if not isinstance(t, ast.Tuple) else list(t.elts)
+                    out = []
                     for n in names:
                         if isinstance(n, ast.Name):
-                            classes.append(n.id if n.id in PLAIN_ERRS else ('ParseError' if n.id in PARSE_ERRS else 'Other'))
-                cl = sorted(set('.' + c for c in classes))
+                            out.append(n.id if n.id in PLAIN_ERRS else ('ParseError' if n.id in PARSE_ERRS else 'Other'))
+                    return sorted(set('.' + c for c in out))
+                cl = sorted(set(c for h in st.handlers for c in hclasses(h)))
                 self.walk(st.body, (conds + [Cond('notCaught', k)], cl, k))
                 for h in st.handlers:
-                    self._caught_class = cl[0] if cl else '.Other'
-                    self.walk(h.body, (conds + [Cond('caught', k)], catch, tid))
+                    hc = hclasses(h)
+                    self._caught_class = hc[0] if hc else '.Other'
+                    self.walk(h.body, (conds + [Cond('caught', k, hc)], catch, tid))
                 self.walk(st.orelse, (conds + [Cond('notCaught', k)], catch, tid))
                 self.walk(st.finalbody, g)
             elif isinstance(st, ast.With):
@@ -678,6 +690,21 @@ def c02_tables(repo: Path, out: Path):
     if mincols is None:
         lost.append(dict(props=['C02'], what='is_atom: `len(spline) < n` not found'))
         mincols = 5
+    # is_atom: is the `> 4.0` test applied to the raw coordinate (then 10.25 is refused) or to the decoded one?
+    unreal = extract.find(shelx, 'Shelxfile._coordinates_are_unrealistic') or isatom
+    has_limit = any(isinstance(n, ast.Compare) and isinstance(n.ops[0], (ast.Gt, ast.GtE)) and isinstance(n.comparators[0], ast.Constant)
+                    and isinstance(n.comparators[0].value, float) for n in ast.walk(unreal))
+    decodes = any(isinstance(n, ast.Name) and n.id == 'split_fvar_and_parameter' for n in ast.walk(unreal))
+    rejects_big = has_limit and not decodes
+    # Command._parse_line: does a leading '.' start a number?
+    cpl = extract.find(cards, 'Command._parse_line')
+    dot = False
+    if cpl is None:
+        lost.append(dict(props=['C02'], what='Command._parse_line not found'))
+    else:
+        for n in ast.walk(cpl):
+            if isinstance(n, ast.If) and any(isinstance(c, ast.Call) and getattr(c.func, 'attr', '') == 'isdigit' for c in ast.walk(n.test)):
+                dot = any(isinstance(c, ast.Constant) and isinstance(c.value, str) and '.' in c.value for c in ast.walk(n.test))
     # card classes ------------------------------------------------------------------------------------------------
     classes = {c.name: c for c in cards.body if isinstance(c, ast.ClassDef)}
     cnames = module_level_names(cards)
@@ -773,8 +800,10 @@ def c02_tables(repo: Path, out: Path):
     txt.append('def cards : List CardReq := [')
     txt.append(',\n'.join(f'  {{ name := {lean_str(n)},\n    steps := {lean_steps(s)} }}' for n, s in card_rows))
     txt.append(']')
+    txt.append(f'def dotNumeric : Bool := {"true" if dot else "false"}')
+    txt.append(f'def atomRejectsBig : Bool := {"true" if rejects_big else "false"}')
     txt.append('def tables : Tables := { shxCards := shxCards, dispatch := dispatch, cards := cards, atomMinCols := atomMinCols,\n'
-               '                         assumedFalse := assumed }')
+               '                         dotNumeric := dotNumeric, atomRejectsBig := atomRejectsBig, assumedFalse := assumed }')
     txt.append('end Shelx.C02.Extracted')
     write_if_changed(out / OUT, '\n'.join(txt) + '\n')
     return lost
